@@ -133,6 +133,28 @@ func (r *mgrRig) sync(chid datatransfer.ChannelID) datatransfer.ChannelState {
 }
 
 // syncAll flushes every known channel and fences.
+// closeCh closes a channel through the API and waits until the close's
+// asynchronous cancel send has reached the network double (the manager sends
+// it from a goroutine of its own; reading the message log earlier is a race
+// of the harness, not of the library).
+func (r *mgrRig) closeCh(chid datatransfer.ChannelID) error {
+	sent0 := r.net.SentLen()
+	err := r.mgr.CloseDataTransferChannel(bg(), chid)
+	if err != nil {
+		return err
+	}
+	deadline := time.Now().Add(watchdog)
+	for time.Now().Before(deadline) {
+		for _, s := range r.net.SentSince(sent0) {
+			if s.Msg.IsCancel() {
+				return nil
+			}
+		}
+		time.Sleep(50 * time.Microsecond)
+	}
+	return nil
+}
+
 func (r *mgrRig) syncAll() {
 	ctx, cancel := wctx()
 	defer cancel()
